@@ -330,7 +330,7 @@ fn nesting_depth(line: &str) -> usize {
         match c {
             '"' | '\'' => quote = Some(c),
             ';' => break,
-            '/' if previous == '/' => break,
+            '/' | '*' if previous == '/' => break,
             '(' => {
                 depth += 1;
                 unary_run = 0;
